@@ -26,6 +26,7 @@ type genLayout struct {
 	audioSegs  []int  // frames per audio segment
 	stpp       bool   // stpp text track at timescale 1000 following the video grid (needs ms-integral video durations)
 	thumbs     bool   // thumbnail track (needs uniform video durations)
+	textShort  int    // number of trailing video segments without a text segment (an asset that must be left out)
 }
 
 var genLayouts = []genLayout{
@@ -212,6 +213,9 @@ func genAsset(root string, L genLayout) error {
 		}
 		tt := 0
 		for i, d := range L.videoSegs {
+			if i >= len(L.videoSegs)-L.textShort {
+				break
+			}
 			ms := d * 1000 / L.videoT
 			data := ttmlDoc(tt+ms/4, tt+ms*3/4, fmt.Sprintf("%s sub %d", L.name, i+1))
 			s := []mp4.FullSample{{Sample: mp4.Sample{Flags: mp4.SyncSampleFlags, Dur: uint32(ms), Size: uint32(len(data))}, Data: data}}
